@@ -21,7 +21,7 @@
    numeric DEC mode codes the library knows (`decmode_all`).
 
    `wf r` bounds the parameters; `print` is total on well-formed reports. *)
-From Coq Require Import List NArith Bool.
+From Coq Require Import List NArith Bool String.
 From SNT Require Import Base.Dec10 Render.FaceModel Encoder.FaceEnc Decoder.SgrRef Decoder.EvModel.
 Import ListNotations.
 Local Open Scope N_scope.
@@ -242,6 +242,29 @@ Definition denote (tab : list (list N * (kname * N))) (r : report) : tev :=
   | RSgr _ => ERaw []      (* a modification record is compared by its meaning: see sgr_event_ok *)
   | RFaceReport params => EFaceGet (face_of_rface (ref_sgr params rface_default))
   end.
+
+(* DEC private modes the library names, with the numbers of xterm ctlseqs "DEC Private Mode Set
+   (DECSET)" / the synchronized-output specification, and the DECRPM status values (DEC STD 070:
+   0 not recognized, 1 set, 2 reset, 3 permanently set, 4 permanently reset) *)
+Definition xterm_decmodes : list (string * N) :=
+  [("AutoWrap", 7);              (* DECAWM *)
+   ("VisibleCursor", 25);        (* DECTCEM *)
+   ("SixelScrolling", 80);       (* DECSDM *)
+   ("MouseReport", 1000);        (* send mouse X & Y on button press and release *)
+   ("MouseMotions", 1003);       (* all-motion mouse tracking *)
+   ("MouseSGR", 1006);           (* SGR mouse mode *)
+   ("AltScreen", 1049);          (* save cursor, switch to the alternate screen buffer *)
+   ("BracketedPaste", 2004);     (* bracketed paste mode *)
+   ("SynchronizedOutput", 2026)  (* synchronized output *)
+  ]%string.
+Definition decrpm_statuses : list (string * N) :=
+  [("NotRecognized", 0); ("Enabled", 1); ("Disabled", 2); ("PermanentlyEnabled", 3); ("PermanentlyDisabled", 4)]%string.
+
+Definition named_eqb (a b : string * N) : bool := String.eqb (fst a) (fst b) && (snd a =? snd b).
+(* every variant of the library's enum carries the documented number of its name, and every
+   documented mode is a variant *)
+Definition named_tables_agree (lib doc : list (string * N)) : bool :=
+  forallb (fun e => existsb (named_eqb e) doc) lib && forallb (fun e => existsb (named_eqb e) lib) doc.
 
 (* ---- well-formedness ---- *)
 Definition coord_ok (n : N) : bool := n <? 65535.          (* transmitted value n + 1 in 1..65535 *)
